@@ -194,4 +194,70 @@ theorem nRun (lim : Bool) :
   rw [h]
   cases lim <;> rfl
 
+/-! #### a guarded query whose first fold *is* truncated: `{ Four { value @output divisor @fold
+@transform(op:"count") @filter(op:">=", value:["$one"]) multiple @fold @transform(op:"count")
+@output(name:"m") @filter(op:"<=", value:["$one"]) } }` (the second fold has two elements and is
+dropped early by the max limit 1) -/
+
+def gF2 : Fold := .mk 2 1 3 "multiple" [] (.mk 3 [wV 3] [] [] []) [] ["m"]
+  [⟨.bin .lessThanOrEqual, .count, some (.var "one" ⟨"Int", [false]⟩)⟩]
+def gF1 : Fold := .mk 1 1 2 "divisor" [] (.mk 2 [wV 2] [] [] []) [] [] [wGe1]
+def gRoot : Component := .mk 1 [wV 1] [] [gF1, gF2] [⟨"value", 1, "value", wInt⟩]
+def gIR : IRQuery :=
+  { rootName := "Four", rootParams := [], variables := [("one", ⟨"Int", [false]⟩)], rootComponent := gRoot }
+
+theorem mapR_length {α β : Type} {f : α → R β} {l : List α} {out : List β} (h : mapR f l = .ok out) :
+    out.length = l.length := by
+  induction l generalizing out with
+  | nil => simp [mapR] at h; subst h; rfl
+  | cons a as ih =>
+    simp only [mapR] at h
+    cases ha : f a with
+    | ok b =>
+      rw [ha] at h
+      cases hr : mapR f as with
+      | ok bs => rw [hr] at h; simp at h; subst h; simp [ih hr]
+      | panic s => rw [hr] at h; simp at h
+      | fuel => rw [hr] at h; simp at h
+    | panic s => rw [ha] at h; simp at h
+    | fuel => rw [ha] at h; simp at h
+
+/-- a component that is a single vertex without coercion and filters keeps the number of contexts -/
+theorem leaf_length (e : Env) (fuel : Nat) (vid : Vid) (l out : List Ctx)
+    (h : computeComponent e fuel (.mk vid [wV vid] [] [] []) l = .ok out) : out.length = l.length := by
+  cases fuel with
+  | zero => simp [computeComponent] at h
+  | succ k =>
+    rw [computeComponent_leaf e k _ (wV vid) l (by simp [Component.vertex?, Component.vertices, Component.root, wV])
+      rfl rfl] at h
+    simp only [enterVertex, coerceIfNeeded, wV, applyLocalFilters, R.bind_ok] at h
+    exact mapR_length h
+
+theorem wAdapter_nbrs_small {eid : Eid} {t edge : Name} {ps : Params} {v : Option VertexId}
+    {ns : List VertexId} (h : wAdapter.nbrs eid t edge ps v = .ok ns) : ns.length ≤ 2 := by
+  simp only [wAdapter, R.ok.injEq] at h
+  subst h
+  repeat' split
+  all_goals simp
+
+theorem gFoldsOK : AllFoldsC (FoldOK (wEnv true)) gRoot := by
+  refine ⟨⟨⟨_, rfl⟩, ?_⟩, trivial, ⟨⟨_, rfl⟩, ?_⟩, trivial, trivial⟩
+  · intro fuel c ft ns elems hns hcomp
+    have h1 := leaf_length _ fuel 2 _ _ hcomp
+    have h2 := wAdapter_nbrs_small hns
+    simp only [foldStart, List.length_map] at h1
+    omega
+  · intro fuel c ft ns elems hns hcomp
+    have h1 := leaf_length _ fuel 3 _ _ hcomp
+    have h2 := wAdapter_nbrs_small hns
+    simp only [foldStart, List.length_map] at h1
+    omega
+
+theorem gGuard : countUnobservedC gRoot = true := by decide
+
+theorem gTruncated : foldLimits (wEnv true) gRoot gF1 = .ok (none, some 1) ∧
+    foldLimits (wEnv true) gRoot gF2 = .ok (some 1, none) := ⟨rfl, rfl⟩
+
+theorem wGuard_fails : countUnobservedC wRoot = false ∧ countUnobservedC nRoot = false := by decide
+
 end TF.Engine
